@@ -52,6 +52,9 @@ theorem apply_step (y : Sys) (g : Good y.s) (op : Op) (hp : op.plain = true) (ho
     · exact Step.refl g
     · rename_i h; exact addMet_step y g m (by simpa using h)
   | rmMet m => simp only [apply]; split; exact rmMet_step y g m ‹_›; exact Step.refl g
+  | rmMetD m => simp only [apply]; split; exact rmMetD_step y g m ‹_›; exact Step.refl g
+  | removeRxns rs o => simp only [apply]; exact (removeRxns_step o rs y g).1
+  | removeRxnO r => simp only [apply]; split; exact (removeRxnO_step y g r ‹_›).1; exact Step.refl g
   | imul r k =>
     simp only [apply]
     split
@@ -328,5 +331,15 @@ theorem demo_block2 : (run (.block demoBody2) ⟨demo, []⟩).1 = ⟨demo, []⟩
 /-- … and outside a context the program really changes the model: afterwards the reaction is gone and its bounds were swapped on the way -/
 example : (runL demoBody2 ⟨demo, []⟩).1.s.hasR "r1" = false ∧ (runL demoBody2 ⟨demo, []⟩).1.s.hasM "A" = true ∧
     (runL demoBody2 ⟨demo, []⟩).1.s.lb "r1" = .fin (-10) ∧ (runL demoBody2 ⟨demo, []⟩).1.s.st "r1" "A" = 0 := by decide +kernel
+
+/-- a third concrete program: the only reaction leaves with its orphans — afterwards the model has neither the metabolite nor the gene — and
+the block puts everything back -/
+def demoBody3 : ProgL := .cons (.op (.removeRxnO "r1")) .nil
+
+theorem demo_block3 : (run (.block demoBody3) ⟨demo, []⟩).1 = ⟨demo, []⟩ :=
+  (block_restores demoBody3 (by simp [demoBody3, ProgL.ok, Prog.ok, Op.plain, OpOK]) ⟨demo, []⟩ demo_good).1
+
+example : (runL demoBody3 ⟨demo, []⟩).1.s.hasR "r1" = false ∧ (runL demoBody3 ⟨demo, []⟩).1.s.hasM "A" = false ∧
+    (runL demoBody3 ⟨demo, []⟩).1.s.hasG "g1" = false ∧ (runL demoBody3 ⟨demo, []⟩).1.s.hasC "A" = false := by decide +kernel
 
 end Core
